@@ -2253,3 +2253,61 @@ def shared_state(ctx, sc, rule):
     from .statrules import shared_class_state
     shared_class_state(ctx, rule, sorted(c for c, ci in ctx.prog.classes.items() if ci.module.name in ('simulator', 'experiment', 'model', 'eventlist', 'simevent')),
                        'two simulators (or replications) in one process influence each other')
+
+
+def start_handshake(ctx, sc, rule):
+    """start() / run_up_to*() return when the worker has taken over.  The flag the command thread waits for in _start_impl must be raised
+    only after the worker has announced START_EVENT and recorded run state STARTED: otherwise the command returns while the simulator
+    still reports STARTING, and a stop() issued then is accepted, announced and then overwritten by the worker."""
+    prog = ctx.prog
+    ctx.rule(rule, 'start handshake: the flag _start_impl waits for is raised by the worker only after START_EVENT was fired and run state STARTED recorded')
+    dc, fn = prog.resolve(SIM, '_start_impl')
+    if fn is None:
+        raise AnalysisError('anchor vanished: Simulator._start_impl')
+    # the flag: a field _start_impl sets to False (re-arming) and some other method sets to True
+    armed = {t.attr for st in walk_shallow(fn) if isinstance(st, ast.Assign) and isinstance(st.value, ast.Constant) and st.value.value is False
+             for t in st.targets if is_self_attr(t)}
+    raised = []
+    for cname, ci in prog.classes.items():
+        if not (prog.is_subclass(cname, BASE) or cname == 'SimulatorWorkerThread'):
+            continue
+        for mname, f2 in ci.methods.items():
+            for st in walk_shallow(f2):
+                if isinstance(st, ast.Assign) and isinstance(st.value, ast.Constant) and st.value.value is True:
+                    for t in st.targets:
+                        if isinstance(t, ast.Attribute) and t.attr in armed and unparse(t.value) in ('self', 'self._job'):
+                            raised.append((ci, f2, st, t.attr))
+    flags = {r[3] for r in raised}
+    if not flags:
+        raise AnalysisError('anchor vanished: no flag that _start_impl re-arms and the run thread raises')
+    wt = prog.classes.get('SimulatorWorkerThread')
+    wrun = wt.methods.get('run') if wt else None
+    if wrun is None:
+        raise AnalysisError('anchor vanished: SimulatorWorkerThread.run')
+    g = CFG(wrun)
+    started = [g.node_for(st) for st in walk_shallow(wrun) if isinstance(st, ast.Assign) and unparse(st.value) == 'RunState.STARTED'
+               and any(isinstance(t, ast.Attribute) and t.attr == '_run_state' for t in st.targets)]
+    fired = [_node_containing(g, c) for c in walk_shallow(wrun) if isinstance(c, ast.Call) and isinstance(c.func, ast.Attribute) and c.func.attr.startswith('fire')
+             and any(isinstance(a, ast.Attribute) and a.attr == 'START_EVENT' for a in c.args)]
+    if not started or not fired:
+        raise AnalysisError('anchor vanished: the worker does not fire START_EVENT / record STARTED in run()')
+    n = 0
+    for (ci, f2, st, flag) in raised:
+        n += 1
+        if f2 is wrun:
+            node = g.node_for(st)
+        else:
+            # raised inside the run method of the simulator: the point in the worker is the call of that method
+            calls = [c for c in walk_shallow(wrun) if isinstance(c, ast.Call) and isinstance(c.func, ast.Attribute) and c.func.attr == f2.name]
+            if not calls:
+                ctx.ob(rule, f'{ci.name}.{f2.name}:{flag}', True, sample=f'{ci.name}.{f2.name} raises {flag} (not reached from the worker loop directly)')
+                continue
+            node = _node_containing(g, calls[0])
+        ok = all(g.dominates(x, node) for x in started) and all(g.dominates(x, node) for x in fired)
+        ctx.ob(rule, f'{ci.name}.{f2.name}:{flag}', ok, sample=f'{ci.name}.{f2.name}: `{short(st)}` comes after START_EVENT and run state STARTED in the worker: {ok}')
+        if not ok:
+            ctx.finding(rule, f'{ci.name}.{f2.name}:{flag}:early', ci, st,
+                        f'`{short(st)}` releases the thread waiting in _start_impl before the worker has fired START_EVENT and recorded STARTED: start() returns while the '
+                        'simulator still reports STARTING; a stop() issued in that window is accepted and announces STOPPING, then the worker overwrites the state with STARTED '
+                        'and runs on -- the accepted command neither is refused nor takes effect', where=f'{ci.name}.{f2.name}')
+    ctx.floor(rule, 'sites raising the start flag', n, 1)
